@@ -22,7 +22,11 @@ import (
 
 type podDef struct {
 	Name, IP, SA string
+	NotReady     bool              // the endpoint is listed in the slice with ready=false
+	Labels       map[string]string // extra / overriding pod labels of this variant
 }
+
+func pd(name, ip, sa string) podDef { return podDef{Name: name, IP: ip, SA: sa} }
 
 type kubeSvcDef struct {
 	ID        string
@@ -34,6 +38,15 @@ type kubeSvcDef struct {
 	Port      int32
 	App       string
 	Variants  [][]podDef
+	// SvcAnnotations, when set, gives the annotations of the Service per variant
+	SvcAnnotations []map[string]string
+	// PodOnly: pods without a Service / EndpointSlice (selected by ServiceEntry workload selectors)
+	PodOnly bool
+	// SharedPods: the pods named in Variants exist independently of this object (it only lists them in its slice)
+	SharedPods bool
+	// Permanent: the pod exists in every world (it is the pod of a connected proxy, which does not outlive its pod);
+	// absent = variant 0, delete = back to variant 0, create / update = the pod is updated in place
+	Permanent bool
 	// TargetPort, when set, gives the service's target port per variant (0: the service port)
 	TargetPort []int32
 	PodLabels  map[string]string
@@ -43,26 +56,35 @@ var kubeUniverse = []kubeSvcDef{
 	{
 		ID: "k-hsvc", Name: "hsvc", Ns: "ns1", Headless: true, PortName: "tcp", Port: 9090, App: "h",
 		Variants: [][]podDef{
-			{{"h1", "10.40.0.1", "sa-h1"}},
-			{{"h1", "10.40.0.1", "sa-h1"}, {"h2", "10.40.0.2", "sa-h2"}},
-			{{"h2", "10.40.0.2", "sa-h2"}},
-			{{"h1", "10.40.0.1", "sa-h1"}, {"h3", "10.40.0.3", "sa-h1"}},
+			{pd("h1", "10.40.0.1", "sa-h1")},
+			{pd("h1", "10.40.0.1", "sa-h1"), pd("h2", "10.40.0.2", "sa-h2")},
+			{pd("h2", "10.40.0.2", "sa-h2")},
+			{pd("h1", "10.40.0.1", "sa-h1"), pd("h3", "10.40.0.3", "sa-h1")},
+			{pd("h1", "10.40.0.1", "sa-h1"), {Name: "h3", IP: "10.40.0.3", SA: "sa-h1", NotReady: true}},
 		},
 	},
 	{
 		ID: "k-svc", Name: "ksvc", Ns: "ns1", ClusterIP: "10.50.0.1", PortName: "http", Port: 80, App: "k",
 		Variants: [][]podDef{
-			{{"k1", "10.41.0.1", "sa-k1"}},
-			{{"k1", "10.41.0.1", "sa-k1"}, {"k2", "10.41.0.2", "sa-k2"}},
-			{{"k2", "10.41.0.2", "sa-k2"}},
+			{pd("k1", "10.41.0.1", "sa-k1")},
+			{pd("k1", "10.41.0.1", "sa-k1"), pd("k2", "10.41.0.2", "sa-k2")},
+			{pd("k2", "10.41.0.2", "sa-k2")},
 			{},
+			// 4, 5: readiness - an endpoint that is listed but not ready; all endpoints not ready
+			{pd("k1", "10.41.0.1", "sa-k1"), {Name: "k3", IP: "10.41.0.3", SA: "sa-k1", NotReady: true}},
+			{{Name: "k1", IP: "10.41.0.1", SA: "sa-k1", NotReady: true}},
+			// 6: like 0, exported to its own namespace only (annotation on the Service)
+			{pd("k1", "10.41.0.1", "sa-k1")},
+			// 7: pods sharing one service account
+			{pd("k1", "10.41.0.1", "sa-k1"), pd("k3", "10.41.0.3", "sa-k1")},
 		},
+		SvcAnnotations: []map[string]string{nil, nil, nil, nil, nil, nil, {"networking.istio.io/exportTo": "."}, nil},
 	},
 	{
 		ID: "k-hhttp", Name: "hhttp", Ns: "ns2", Headless: true, PortName: "http", Port: 8080, App: "hh",
 		Variants: [][]podDef{
-			{{"hh1", "10.42.0.1", "sa-hh"}},
-			{{"hh1", "10.42.0.1", "sa-hh"}, {"hh2", "10.42.0.2", "sa-hh"}},
+			{pd("hh1", "10.42.0.1", "sa-hh")},
+			{pd("hh1", "10.42.0.1", "sa-hh"), pd("hh2", "10.42.0.2", "sa-hh")},
 		},
 	},
 }
@@ -72,9 +94,21 @@ func init() {
 	// service that selects it, so the router's merged gateways depend on services as well
 	kubeUniverse = append(kubeUniverse, kubeSvcDef{
 		ID: "k-gwsvc", Name: "istio-ingressgateway", Ns: "istio-system", ClusterIP: "10.50.0.9", PortName: "http", Port: 80, App: "gw",
-		PodLabels:  map[string]string{"istio": "ingressgateway"},
-		Variants:   [][]podDef{{{"gw", "10.2.0.1", "gw"}}, {{"gw", "10.2.0.1", "gw"}}, {{"gw", "10.2.0.1", "gw"}}},
+		PodLabels: map[string]string{"istio": "ingressgateway"}, SharedPods: true,
+		Variants:   [][]podDef{{pd("gw", "10.2.0.1", "gw")}, {pd("gw", "10.2.0.1", "gw")}, {pd("gw", "10.2.0.1", "gw")}},
 		TargetPort: []int32{8080, 9080, 80},
+	})
+	// the router's own pod: 1 = relabelled (ProxyUpdate), Gateways selecting istio=ingressgateway stop applying
+	kubeUniverse = append(kubeUniverse, kubeSvcDef{
+		ID: "k-gwpod", Name: "gw", Ns: "istio-system", App: "gw", PodOnly: true, Permanent: true,
+		PodLabels: map[string]string{"istio": "ingressgateway"},
+		Variants: [][]podDef{{pd("gw", "10.2.0.1", "gw")},
+			{{Name: "gw", IP: "10.2.0.1", SA: "gw", Labels: map[string]string{"istio": "other"}}}},
+	})
+	// a pod selected by ServiceEntry workload selectors (app=we): cross-registry selection
+	kubeUniverse = append(kubeUniverse, kubeSvcDef{
+		ID: "k-wepod", Name: "wepod", Ns: "ns1", App: "we", PodOnly: true,
+		Variants: [][]podDef{{pd("wepod", "10.30.0.9", "we-sa")}, {pd("wepod", "10.30.0.9", "we-sa3")}},
 	})
 	for i := range kubeUniverse {
 		kubeIndex[kubeUniverse[i].ID] = &kubeUniverse[i]
@@ -99,8 +133,12 @@ func (d *kubeSvcDef) targetPort(variant int) int32 {
 }
 
 func (d *kubeSvcDef) service(variant int) *corev1.Service {
+	var ann map[string]string
+	if variant >= 0 && variant < len(d.SvcAnnotations) {
+		ann = d.SvcAnnotations[variant]
+	}
 	s := &corev1.Service{
-		ObjectMeta: metav1.ObjectMeta{Name: d.Name, Namespace: d.Ns, CreationTimestamp: metav1.NewTime(baseTime)},
+		ObjectMeta: metav1.ObjectMeta{Name: d.Name, Namespace: d.Ns, Annotations: ann, CreationTimestamp: metav1.NewTime(baseTime)},
 		Spec: corev1.ServiceSpec{
 			Selector: map[string]string{"app": d.App},
 			Ports:    []corev1.ServicePort{{Name: d.PortName, Port: d.Port, TargetPort: intstr.FromInt32(d.targetPort(variant)), Protocol: corev1.ProtocolTCP}},
@@ -119,6 +157,9 @@ func (d *kubeSvcDef) pod(p podDef) *corev1.Pod {
 	for k, v := range d.PodLabels {
 		labels[k] = v
 	}
+	for k, v := range p.Labels {
+		labels[k] = v
+	}
 	return &corev1.Pod{
 		ObjectMeta: metav1.ObjectMeta{Name: p.Name, Namespace: d.Ns, Labels: labels,
 			CreationTimestamp: metav1.NewTime(baseTime)},
@@ -131,7 +172,6 @@ func (d *kubeSvcDef) pod(p podDef) *corev1.Pod {
 }
 
 func (d *kubeSvcDef) slice(pods []podDef, variant int) *discoveryv1.EndpointSlice {
-	ready := true
 	tp := d.targetPort(variant)
 	es := &discoveryv1.EndpointSlice{
 		ObjectMeta: metav1.ObjectMeta{Name: d.Name + "-1", Namespace: d.Ns, Labels: map[string]string{discoveryv1.LabelServiceName: d.Name},
@@ -140,9 +180,11 @@ func (d *kubeSvcDef) slice(pods []podDef, variant int) *discoveryv1.EndpointSlic
 		Ports:       []discoveryv1.EndpointPort{{Name: &d.PortName, Port: &tp}},
 	}
 	for _, p := range pods {
+		// a pod that is not ready (and not shutting down): all three conditions set, as current API servers do
+		ready, terminating := !p.NotReady, false
 		es.Endpoints = append(es.Endpoints, discoveryv1.Endpoint{
 			Addresses:  []string{p.IP},
-			Conditions: discoveryv1.EndpointConditions{Ready: &ready},
+			Conditions: discoveryv1.EndpointConditions{Ready: &ready, Serving: &ready, Terminating: &terminating},
 			TargetRef:  &corev1.ObjectReference{Kind: "Pod", Name: p.Name, Namespace: d.Ns},
 		})
 	}
@@ -154,15 +196,25 @@ func kubeObjects(w world) []runtime.Object {
 	var out []runtime.Object
 	for _, d := range kubeUniverse {
 		v, ok := w[d.ID]
+		d := d
+		if d.Permanent {
+			out = append(out, d.pod(d.Variants[v][0])) // absent: v = 0
+			continue
+		}
 		if !ok {
 			continue
 		}
-		d := d
-		out = append(out, d.service(v))
-		for _, p := range d.Variants[v] {
-			out = append(out, d.pod(p))
+		if !d.PodOnly {
+			out = append(out, d.service(v))
 		}
-		out = append(out, d.slice(d.Variants[v], v))
+		if !d.SharedPods {
+			for _, p := range d.Variants[v] {
+				out = append(out, d.pod(p))
+			}
+		}
+		if !d.PodOnly {
+			out = append(out, d.slice(d.Variants[v], v))
+		}
 	}
 	return out
 }
@@ -175,19 +227,38 @@ func applyKube(c kubelib.Client, op, id string, variant int, cur world) error {
 	ctx := context.Background()
 	k := c.Kube()
 	old, had := cur[id]
+	if d.Permanent {
+		nv := variant
+		if op == "delete" {
+			nv = 0
+		}
+		if fmt.Sprint(d.Variants[old][0].Labels) == fmt.Sprint(d.Variants[nv][0].Labels) { // absent: old = 0
+			return nil
+		}
+		_, err := k.CoreV1().Pods(d.Ns).Update(ctx, d.pod(d.Variants[nv][0]), metav1.UpdateOptions{})
+		return err
+	}
 	var oldPods []podDef
-	if had {
+	if had && !d.SharedPods {
 		oldPods = d.Variants[old]
 	}
 	switch op {
 	case "create":
-		if _, err := k.CoreV1().Services(d.Ns).Create(ctx, d.service(variant), metav1.CreateOptions{}); err != nil {
-			return err
+		if !d.PodOnly {
+			if _, err := k.CoreV1().Services(d.Ns).Create(ctx, d.service(variant), metav1.CreateOptions{}); err != nil {
+				return err
+			}
 		}
 		for _, p := range d.Variants[variant] {
+			if d.SharedPods {
+				break
+			}
 			if _, err := k.CoreV1().Pods(d.Ns).Create(ctx, d.pod(p), metav1.CreateOptions{}); err != nil {
 				return err
 			}
+		}
+		if d.PodOnly {
+			return nil
 		}
 		_, err := k.DiscoveryV1().EndpointSlices(d.Ns).Create(ctx, d.slice(d.Variants[variant], variant), metav1.CreateOptions{})
 		return err
@@ -202,13 +273,28 @@ func applyKube(c kubelib.Client, op, id string, variant int, cur world) error {
 			return false
 		}
 		for _, p := range newPods {
+			if d.SharedPods {
+				break
+			}
 			if !in(oldPods, p.Name) {
 				if _, err := k.CoreV1().Pods(d.Ns).Create(ctx, d.pod(p), metav1.CreateOptions{}); err != nil {
 					return err
 				}
+				continue
+			}
+			// the pod stays: its labels or service account may have changed
+			for _, o := range oldPods {
+				if o.Name == p.Name && (o.SA != p.SA || fmt.Sprint(o.Labels) != fmt.Sprint(p.Labels)) {
+					if _, err := k.CoreV1().Pods(d.Ns).Update(ctx, d.pod(p), metav1.UpdateOptions{}); err != nil {
+						return err
+					}
+				}
 			}
 		}
-		if had && d.targetPort(old) != d.targetPort(variant) {
+		if d.PodOnly {
+			return nil
+		}
+		if had && (d.targetPort(old) != d.targetPort(variant) || fmt.Sprint(d.service(old).Annotations) != fmt.Sprint(d.service(variant).Annotations)) {
 			if _, err := k.CoreV1().Services(d.Ns).Update(ctx, d.service(variant), metav1.UpdateOptions{}); err != nil {
 				return err
 			}
@@ -225,13 +311,18 @@ func applyKube(c kubelib.Client, op, id string, variant int, cur world) error {
 		}
 		return nil
 	case "delete":
-		if err := k.DiscoveryV1().EndpointSlices(d.Ns).Delete(ctx, d.Name+"-1", metav1.DeleteOptions{}); err != nil && !kerrors.IsNotFound(err) {
-			return err
+		if !d.PodOnly {
+			if err := k.DiscoveryV1().EndpointSlices(d.Ns).Delete(ctx, d.Name+"-1", metav1.DeleteOptions{}); err != nil && !kerrors.IsNotFound(err) {
+				return err
+			}
 		}
 		for _, p := range oldPods {
 			if err := k.CoreV1().Pods(d.Ns).Delete(ctx, p.Name, metav1.DeleteOptions{}); err != nil && !kerrors.IsNotFound(err) {
 				return err
 			}
+		}
+		if d.PodOnly {
+			return nil
 		}
 		return k.CoreV1().Services(d.Ns).Delete(ctx, d.Name, metav1.DeleteOptions{})
 	}
